@@ -1159,3 +1159,21 @@ Lemma race_is_interleaving :
             (run_sched real_consts race_state [AStart race_call; AStart race_call] [0; 1; 0; 1; 0; 0; 0; 0; 1; 1; 1; 1])
   /\ map ck_to (ckpts (log race_end)) = [2; 2].
 Proof. split; [apply (run_sched_steps real_consts _ race_state) | vm_compute; reflexivity]. Qed.
+
+(* ---------- observed (faithful, not a violation): beyond the scan window the job's later cuts use the snapshot ----------
+   3 checkpoint frames for cut 2 and a scan window of 2 frames (small_window; 10 000 in the code): the bounded look-up
+   refuses, the base of every planned cut comes from the job's replay snapshot, which does not hold the checkpoint the
+   job has just written for cut 4 — the summary of cut 6 is built on the summary of cut 2 out of messages 3..6 (it still
+   covers the thread up to its cut exactly once).  Inside the window it is built on the summary of cut 4 out of 5, 6. *)
+Definition quirk_manual (q : N) : op :=
+  OManual {| mr_md := Some 0; mr_art := None; mr_to_mid := None; mr_to_seq := Some q; mr_stride := None |}.
+Definition quirk_ops : list op :=
+  [OMsg 0 1; OMsg 1 2; quirk_manual 2; quirk_manual 2; quirk_manual 2; OMsg 0 3; OMsg 1 4; OMsg 0 5; OMsg 1 6].
+Definition summ_view (s : st) : list (N * N * option N * bool * list (N * N)) :=
+  map (fun kv => (fst kv, su_to_seq (snd kv), su_base (snd kv), su_base_used (snd kv), su_slice (snd kv))) (arts s).
+Lemma beyond_window_observed :
+  skipn 3 (summ_view (fst (auto small_window (Some 2) (Some 2) None (fst (run_ops small_window st0 quirk_ops [])))))
+  = [(4, 7, Some 3, true, [(0, 3); (1, 4)]); (5, 9, Some 3, true, [(0, 3); (1, 4); (0, 5); (1, 6)])]
+  /\ skipn 3 (summ_view (fst (auto real_consts (Some 2) (Some 2) None (fst (run_ops real_consts st0 quirk_ops [])))))
+     = [(4, 7, Some 3, true, [(0, 3); (1, 4)]); (5, 9, Some 4, true, [(0, 5); (1, 6)])].
+Proof. split; vm_compute; reflexivity. Qed.
